@@ -1501,6 +1501,8 @@ func layRunC03(t gen.Tier, rng *gen.Rng, rep *Reporter) {
 			rep.Sample(line + " => Pack bytes = reference layout; reference bytes unpack to the canonical content and re-pack to themselves")
 		}
 	})
+	// bitmapped composites: the layout after a subfield was unset (the composite's bitmap is regenerated by every Pack)
+	compRepackSweep(rep, rng, t.N(150, 3000))
 	// the layout of a field is the layout of the value it holds NOW (two writes through two writers)
 	{
 		gw := gen.NewFieldGen(rng)
